@@ -49,6 +49,8 @@ package ordered
 //@   ensures [alloc] m.index != nil && (old(m.index) != nil ==> m.index == old(m.index)) && (old(m.index) == nil ==> fresh(m.index)) &&
 //@       (arr(m.items) == old(arr(m.items)) || fresh(m.items))
 //@   ensures [dom] forall k2 K :: {has(m.index,k2)} has(m.index,k2) == (old(has(m.index,k2)) || k2 == k)
+//@   ensures [len] len(m.index) == old(len(m.index)) + (old(has(m.index,k)) ? 0 : 1)
+//@   ensures [live] forall y int :: {live(m.items, y)} 0 <= y && y <= old(len(m.items)) ==> live(m.items, y) == old(live(m.items, y))
 //@   ensures [present] old(has(m.index,k)) ==> len(m.items) == old(len(m.items)) &&
 //@       (forall i int :: {m.items[i]} 0 <= i && i < len(m.items) ==>
 //@           m.items[i].Key == old(m.items[i].Key) && m.items[i].deleted == old(m.items[i].deleted) &&
